@@ -11,23 +11,23 @@
 (***************************************************************************)
 EXTENDS Rapid
 
-CONSTANTS MaxCalls, MaxInv, MaxExits, MaxTimers, RaceTimer,
+CONSTANTS MaxCalls, MaxInv, MaxExits, MaxTimers, MaxShutdowns, RaceTimer,
           ExtSubs,       \* subscription sets an external extension may register with
           IntNames,      \* names of internal extensions that may register
           Misuse,        \* BOOLEAN: also stale / unknown ids, init/error, second registrations
           PromptHelpers  \* BOOLEAN: the helper goroutines of Server.Invoke take their enabled steps before a
                          \* reset goroutine takes its next one (they are woken by channel sends and do no I/O)
 
-VARIABLES nexit, ntimer
+VARIABLES nexit, ntimer, nshut
 
 MCExtOrder == <<"e1">>
 MCExtSubs == {{"INVOKE"}, {"INVOKE", "SHUTDOWN"}}
 
-mcvars == <<st, nexit, ntimer>>
+mcvars == <<st, nexit, ntimer, nshut>>
 
 Files == ExtUniverse
 
-MCInit == st = State0(Files, {}) /\ nexit = 0 /\ ntimer = 0
+MCInit == st = State0(Files, {}) /\ nexit = 0 /\ ntimer = 0 /\ nshut = 0
 
 Quiet == ~Urgent(st)
 
@@ -66,30 +66,30 @@ Issue ==
     /\ \E call \in RtCalls \cup AgentCalls :
          /\ ~Busy(call.who) /\ CanCall(call.who)
          /\ st' = IssueDo(st, st.ncalls + 1, call)
-    /\ UNCHANGED <<nexit, ntimer>>
+    /\ UNCHANGED <<nexit, ntimer, nshut>>
 
 Return ==
     /\ \E c \in DOMAIN st.calls : ReturnEn(st, c) /\ st' = ReturnDo(st, c)
-    /\ UNCHANGED <<nexit, ntimer>>
+    /\ UNCHANGED <<nexit, ntimer, nshut>>
 
 \* ---- environment: callers, platform
-PlatformInit == Quiet /\ StartInitEn(st) /\ st' = StartInitDo(st) /\ UNCHANGED <<nexit, ntimer>>
+PlatformInit == Quiet /\ StartInitEn(st) /\ st' = StartInitDo(st) /\ UNCHANGED <<nexit, ntimer, nshut>>
 
 \* (the front end calls Invoke only after Init has returned: FrontEnd!InvokeAfterInit)
 Invoke ==
     /\ Quiet /\ st.ninv < MaxInv /\ st.srv.initOut # "unset"
     /\ \E c \in Callers : CallerStartEn(st, c) /\ st' = CallerStartDo(st, c, st.ninv + 1, FALSE)
-    /\ UNCHANGED <<nexit, ntimer>>
+    /\ UNCHANGED <<nexit, ntimer, nshut>>
 
 InvokeReturns ==
     /\ \E c \in Callers : CallerReturnEn(st, c) /\ st' = CallerReturnDo(st, c)
-    /\ UNCHANGED <<nexit, ntimer>>
+    /\ UNCHANGED <<nexit, ntimer, nshut>>
 
 \* ---- environment: processes and timers
 Exit ==
     /\ Quiet /\ nexit < MaxExits
     /\ \E p \in DOMAIN st.procs : ProcExitEn(st, p) /\ st' = ProcExitDo(st, p)
-    /\ nexit' = nexit + 1 /\ UNCHANGED ntimer
+    /\ nexit' = nexit + 1 /\ UNCHANGED <<ntimer, nshut>>
 
 \* processes die when asked to (exit on TERM); the supervisor then sends the event
 Supervisor ==
@@ -101,22 +101,30 @@ Supervisor ==
        \/ \E p \in st.pcS.todo : ShutAgentKillEn(st, p) /\ p \in st.shutAwait /\ Quiet /\ st' = ShutAgentKillDo(st, p)
        \/ LaunchExtEn(st) /\ st' = LaunchExtDo(st)
        \/ LaunchRuntimeEn(st) /\ st' = LaunchRuntimeDo(st)
-    /\ UNCHANGED <<nexit, ntimer>>
+    /\ UNCHANGED <<nexit, ntimer, nshut>>
 
 Timer ==
     /\ ntimer < MaxTimers
     /\ (RaceTimer \/ Quiet)
     /\ \E k \in DOMAIN st.iv : MainTimeoutEn(st, k) /\ st' = MainTimeoutDo(st, k)
-    /\ ntimer' = ntimer + 1 /\ UNCHANGED nexit
+    /\ ntimer' = ntimer + 1 /\ UNCHANGED <<nexit, nshut>>
+
+\* the platform driver shuts the environment down (Server.Shutdown)
+DrvShutdown ==
+    /\ Quiet /\ nshut < MaxShutdowns /\ DriverShutdownEn(st)
+    /\ st' = DriverShutdownDo(st)
+    /\ nshut' = nshut + 1 /\ UNCHANGED <<nexit, ntimer>>
 
 \* ---- the emulator's internal steps (same list as Trace_Rapid!Internal)
 Step(en, do) == en /\ st' = do
 
 HelperEnabled ==
-    \E k \in DOMAIN st.iv :
+    \/ \E k \in DOMAIN st.iv :
         \/ RelReserveEn(st, k) \/ FioAwaitInitEn(st, k) \/ FioShutdownEn(st, k) \/ FioShutdownDoneEn(st, k)
         \/ FioFastInvokeEn(st, k) \/ FiiStartEn(st, k) \/ FiiDefaultErrorEn(st, k) \/ FiiSendDoneEn(st, k)
         \/ RelAwaitEn(st, k) \/ RelAfterResetEn(st, k)
+    \* ... and so are polls that have been released: the handler goroutine renders at once
+    \/ \E c \in DOMAIN st.calls : WakeEn(st, c)
 
 ResetMayStep == PromptHelpers => ~HelperEnabled
 
@@ -156,12 +164,14 @@ OtherInternal ==
                \/ Step(ResetFinishEn(st, x), ResetFinishDo(st, x))
                \/ Step(ResetClearEn(st, x), ResetClearDo(st, x))
                \/ Step(ResetServerClearEn(st, x), ResetServerClearDo(st, x))
-       \/ Step(ShutBeginEn(st), ShutBeginDo(st))
-       \/ Step(ShutRuntimeExitedEn(st), ShutRuntimeExitedDo(st))
-       \/ Step(ShutAgentsEn(st), ShutAgentsDo(st))
+       \/ Step(ResetMayStep /\ DriverShutdownLockEn(st), DriverShutdownLockDo(st, 0))
+       \/ Step(DriverShutdownRetEn(st), DriverShutdownRetDo(st))
+       \/ Step(ResetMayStep /\ ShutBeginEn(st), ShutBeginDo(st))
+       \/ Step(ResetMayStep /\ ShutRuntimeExitedEn(st), ShutRuntimeExitedDo(st))
+       \/ Step(ResetMayStep /\ ShutAgentsEn(st), ShutAgentsDo(st))
        \/ \E p \in st.pcS.todo : Step(ShutAgentExitedEn(st, p), ShutAgentExitedDo(st, p))
-       \/ Step(ShutAgentsJoinedEn(st), ShutAgentsJoinedDo(st))
-       \/ Step(ShutReapedEn(st), ShutReapedDo(st))
+       \/ Step(ResetMayStep /\ ShutAgentsJoinedEn(st), ShutAgentsJoinedDo(st))
+       \/ Step(ResetMayStep /\ ShutReapedEn(st), ShutReapedDo(st))
        \/ \E p \in DOMAIN st.procs : Step(WatchRecvEn(st, p), WatchRecvDo(st, p))
        \/ Step(WatchHandleEn(st), WatchHandleDo(st))
        \/ Step(WatchCancelEn(st), WatchCancelDo(st))
@@ -174,16 +184,16 @@ OtherInternal ==
 EffectPending == \E c \in DOMAIN st.calls : EffectEn(st, c)
 
 Internal ==
-    /\ UNCHANGED <<nexit, ntimer>>
+    /\ UNCHANGED <<nexit, ntimer, nshut>>
     /\ \/ \E c \in DOMAIN st.calls : Step(EffectEn(st, c), EffectDo(st, c))
        \/ ~(PromptHelpers /\ EffectPending) /\ OtherInternal
 
-MCNext == PlatformInit \/ Issue \/ Return \/ Invoke \/ InvokeReturns \/ Exit \/ Supervisor \/ Timer \/ Internal
+MCNext == DrvShutdown \/ PlatformInit \/ Issue \/ Return \/ Invoke \/ InvokeReturns \/ Exit \/ Supervisor \/ Timer \/ Internal
 
 MCSpec == MCInit /\ [][MCNext]_mcvars
 
 \* history variables do not distinguish states
-View == <<[st EXCEPT !.tel = <<>>], nexit, ntimer>>
+View == <<[st EXCEPT !.tel = <<>>], nexit, ntimer, nshut>>
 
 ----------------------------------------------------------------------------
 (* the properties (Rapid!PropHolds) as invariants *)
@@ -195,6 +205,7 @@ NoGhostInvoke == PropHolds(st).NoGhostInvoke
 StreamOwnerIsReserver == PropHolds(st).StreamOwnerIsReserver
 OkHasBody == PropHolds(st).OkHasBody
 ResetIsFresh == PropHolds(st).ResetIsFresh
+EventsOnlyToSubscribers == PropHolds(st).EventsOnlyToSubscribers
 \* state constraints that cut off the behaviours of the recorded findings (lib/mcrapid.py)
 NoDoubleReset == \A k \in DOMAIN st.iv : ~(<<k, "T">> \in DOMAIN st.rs /\ <<k, "F">> \in DOMAIN st.rs)
 KnownFindingsCutOff == NoGhostInvoke /\ NoDoubleReset
